@@ -122,6 +122,9 @@ func cmdCheck(argv []string) int {
 	for _, k := range keys {
 		ct := eng.db.Funcs[k]
 		if ct.Assumed {
+			if hasProp(ct.Props, *prop) {
+				res.Trusted = append(res.Trusted, "assumed in-repo contract: "+ct.Kind+" "+ct.Key+" ("+ct.Src+")")
+			}
 			continue
 		}
 		if !hasProp(ct.Props, *prop) && *prop != "ALL" {
@@ -132,6 +135,9 @@ func cmdCheck(argv []string) int {
 			continue
 		}
 		if ct.Kind == "iface" {
+			if ct.Assumed {
+				continue
+			}
 			for _, iu := range eng.implUnits(ct) {
 				if onlyRe != nil && !onlyRe.MatchString(iu.name) {
 					continue
